@@ -144,7 +144,7 @@ rechunked = Contract(
     locals={"depths": T.Seq(T.Int)},
     returns=SSI,
     requires=[
-        ("one-depth-per-axis (coerce_depth)", "forall(lambda a: (a in depth2.keys()) == (0 <= a and a < len(x.chunks)))"),
+        ("one-depth-per-axis (coerce_depth)", "forall(lambda a: (a in depth2.keys()) == (0 <= a and a < len(x.chunks))) and len(depth2) == len(x.chunks)"),
         ("depths-nonneg", "all(ldepth(depth2, a) >= 0 and rdepth(depth2, a) >= 0 for a in range(len(x.chunks)))"),
         ("axes-nonempty", "all(len(x.chunks[a]) >= 1 and all(x.chunks[a][j] >= 0 for j in range(len(x.chunks[a]))) for a in range(len(x.chunks)))"),
         ("depth-fits-the-axis", "all(sum(x.chunks[a]) >= ldepth(depth2, a) and sum(x.chunks[a]) >= rdepth(depth2, a) for a in range(len(x.chunks)))"),
@@ -157,7 +157,42 @@ rechunked = Contract(
     note="caller of ensure_minimum_chunksize, checked against that function's contract; `depth2.values()` is modelled as the depths in axis order (what coerce_depth produces; bounded natively)",
 )
 
-CONTRACTS = [overlap_internal_chunks, trim_chunks, overlap_trim_identity, emc, rechunked]
+def overlap_prepare_fragment(body):
+    """Fragment of overlap(): from `depths = [...]` to the end of the `if allow_rechunk: ... else: ...` statement that
+    fixes x1, followed by a synthesised `return x1`.  Dropped: coerce_depth/coerce_boundary before it and boundaries /
+    overlap_internal / trim after it (NumPy level)."""
+    start = next(i for i, s_ in enumerate(body) if _ast.unparse(s_).startswith("depths = ["))
+    end = next(i for i, s_ in enumerate(body) if isinstance(s_, _ast.If) and _ast.unparse(s_.test) == "allow_rechunk")
+    r = _ast.Return(value=_ast.Name(id="x1", ctx=_ast.Load()))
+    _ast.copy_location(r, body[end])
+    return list(body[start:end + 1]) + [_ast.fix_missing_locations(r)]
+
+
+_MAXD = "(ldepth(depth2, a) if ldepth(depth2, a) >= rdepth(depth2, a) else rdepth(depth2, a))"
+
+overlap_prepare = Contract(
+    MODULE, "overlap[chunks fit the depth]", source="overlap",
+    fragment=overlap_prepare_fragment,
+    params={"x": ArrX, "depth2": T.Map(T.Int, Depth), "allow_rechunk": T.Bool},
+    locals={"depths": T.Seq(T.Int), "x1": ArrX, "original_chunks_too_small": T.Bool},
+    returns=ArrX,
+    requires=[
+        ("one-depth-per-axis (coerce_depth)", "forall(lambda a: (a in depth2.keys()) == (0 <= a and a < len(x.chunks))) and len(depth2) == len(x.chunks)"),
+        ("depths-nonneg", "all(ldepth(depth2, a) >= 0 and rdepth(depth2, a) >= 0 for a in range(len(x.chunks)))"),
+        ("axes-nonempty", "all(len(x.chunks[a]) >= 1 and all(x.chunks[a][j] >= 0 for j in range(len(x.chunks[a]))) for a in range(len(x.chunks)))"),
+        ("depth-fits-the-axis", "all(sum(x.chunks[a]) >= ldepth(depth2, a) and sum(x.chunks[a]) >= rdepth(depth2, a) for a in range(len(x.chunks)))"),
+    ],
+    ensures=[
+        ("C26-every-block-can-lend-its-neighbours-the-full-depth", "len(result.chunks) == len(x.chunks) and all(result.chunks[a][j] >= ldepth(depth2, a) and result.chunks[a][j] >= rdepth(depth2, a) for a in range(len(result.chunks)) for j in range(len(result.chunks[a])))"),
+        ("C26-axis-lengths-kept", "all(sum(result.chunks[a]) == sum(x.chunks[a]) for a in range(len(result.chunks)))"),
+        ("C26-without-rechunk-the-array-is-untouched", "implies(not allow_rechunk, same(result, x))"),
+    ],
+    raises=[("ValueError", f"not allow_rechunk and exists(lambda a, j: 0 <= a and a < len(x.chunks) and 0 <= j and j < len(x.chunks[a]) and x.chunks[a][j] < {_MAXD}, Int, Int)", "chunks-smaller-than-depth")],
+    ghost=[("after", "depths = [", f"assert_(len(depths) == len(x.chunks), 'one-depth-per-axis')\nassert_(forall(lambda a: implies(0 <= a and a < len(depths), depths[a] >= ldepth(depth2, a) and depths[a] >= rdepth(depth2, a) and (depths[a] == ldepth(depth2, a) or depths[a] == rdepth(depth2, a)))), 'depths-hold-the-larger-side-of-each-axis')")],
+    note="ASSUMED: x.rechunk(c) yields an array whose chunks are c (that is C23); depth2.values() are the depths in axis order (coerce_depth)",
+)
+
+CONTRACTS = [overlap_internal_chunks, trim_chunks, overlap_trim_identity, emc, rechunked, overlap_prepare]
 
 
 def spec_ldepth(eng, st, axes, a):
@@ -196,6 +231,7 @@ def model_depth_values(eng, st, base, node, lv):
     a = z3.Int("a!dv")
     n = sty.len(v.t)
     st.assume(n >= 0)
+    st.assume(n == eng.card(st, SV(mt.dom(base.t), T.Set(T.Int))).t)  # one value per key
     st.assume(z3.ForAll([a], z3.And(0 <= a, a < n) == z3.Select(mt.dom(base.t), a)))
     st.assume(z3.Implies(n > 0, z3.Select(mt.dom(base.t), n - 1)))
     st.assume(z3.Not(z3.Select(mt.dom(base.t), n)))
@@ -204,8 +240,21 @@ def model_depth_values(eng, st, base, node, lv):
     return v
 
 
+def model_rechunk_method(eng, st, base, node, lv):
+    """x.rechunk(chunks): ASSUMED to return an array with exactly the requested chunks (C23)."""
+    from vf.core import SV
+    c = eng.ev(node.args[0], st)
+    if c.ty != SSI:
+        from vf.core import Unsupported
+        raise Unsupported(f"x.rechunk({c.ty})")
+    eng.used_models.add("Array.rechunk: ASSUMED to yield the requested chunks (C23)")
+    return SV(ArrX.mk(chunks=c.t), ArrX)
+
+
 def setup(eng):
     from vf.core import FuncVal
+    eng.attr_models[("method", "ArrayLike", "rechunk")] = model_rechunk_method
+    eng.funcs["_get_overlap_rechunked_chunks"] = FuncVal("_get_overlap_rechunked_chunks", "contract", rechunked)
     eng.spec_funcs["has_boundary"] = spec_has_boundary
     eng.funcs["_overlap_internal_chunks"] = FuncVal("_overlap_internal_chunks", "contract", overlap_internal_chunks)
     eng.funcs["trim_chunks"] = FuncVal("trim_chunks", "contract", trim_chunks)
